@@ -129,7 +129,7 @@ structure MCfg where
   chips : List (Nat × Nat)
   missed : Nat → Nat → Nat → Bool
   sdramSys : Nat
-  vcpuBase : Nat
+  vcpuBase : Nat → Nat → Nat        -- sv.vcpu_base of chip (x, y): may differ from chip to chip
 
 inductive Reply where
   | ok
@@ -178,9 +178,9 @@ def stepP (mc : MCfg) (m : MState) : Pkt → MState × Reply
     else (m, .unmodelled)
   | .read x y addr len =>
     if addr = svBase + offSdramSys ∧ len = 4 then (m, .data (C07.le32 mc.sdramSys))
-    else if addr = svBase + offVcpuBase ∧ len = 4 then (m, .data (C07.le32 mc.vcpuBase))
-    else if mc.vcpuBase ≤ addr ∧ (addr - mc.vcpuBase) % vcpuSize = offCpuState ∧ len = 1 then
-      (m, .data [(m.core x y ((addr - mc.vcpuBase) / vcpuSize)).state])
+    else if addr = svBase + offVcpuBase ∧ len = 4 then (m, .data (C07.le32 (mc.vcpuBase x y)))
+    else if mc.vcpuBase x y ≤ addr ∧ (addr - mc.vcpuBase x y) % vcpuSize = offCpuState ∧ len = 1 then
+      (m, .data [(m.core x y ((addr - mc.vcpuBase x y) / vcpuSize)).state])
     else (m, .unmodelled)
   | .other => (m, .unmodelled)
 
@@ -610,9 +610,20 @@ def coresToJson (mc : MCfg) (core : Nat → Nat → Nat → Core) (full : Bool) 
 def mcfgOfJson (j : Json) : R MCfg := do
   let chips ← (← arr j "chips").mapM pairOfJson
   let missed ← (← arr j "missed").mapM fun l => do (← asArr l).mapM pairOfJson
+  -- "vcpu_base": the value on every chip not listed in the optional "vcpu_bases": [[x, y, base], ...]
+  let vb ← nat j "vcpu_base"
+  let vbs ← opt j "vcpu_bases" fun l => do
+    (← asArr l).mapM fun e => do
+      match ← asArr e with
+      | [x, y, b] => pure ((← asNat x, ← asNat y), ← asNat b)
+      | _ => .error "expected [x, y, base]"
+  let vbs : List ((Nat × Nat) × Nat) := vbs.getD []
   pure { chips := chips,
          missed := fun k x y => (missed.getD k []).contains (x, y),
-         sdramSys := ← nat j "sdram_sys", vcpuBase := ← nat j "vcpu_base" }
+         sdramSys := ← nat j "sdram_sys",
+         vcpuBase := fun x y => match vbs.find? (fun e => e.1 == (x, y)) with
+           | some e => e.2
+           | none => vb }
 
 def initState (j : Json) : R MState := do
   pure { core := ← coresOfJson (← arr j "cores"),
@@ -641,6 +652,13 @@ def handle (op : String) (j : Json) : R Json := do
                          | some e => e.2
                          | none => [(4294967295, 0)] }
     let apps ← (← arr j "apps").mapM appOfJson
+    -- `only_fill`: flood_fill_aplx(application_map, app_id, wait) called directly, no verification loop
+    if (← opt j "only_fill" asBool).getD false then
+      let s := floodFill mc c c.wait { m := m, nn := ← nat j "nn", trace := [] } apps
+      return Json.mkObj [
+        ("trace", jList (s.trace.reverse.map fun e => jPair (reqToJson e.1) (replyToJson e.2))),
+        ("outcome", Json.str "ok"), ("sent", jList []), ("nn", jNat s.nn),
+        ("cores", coresToJson mc s.m.core false)]
     let r := loadApplication mc c { m := m, nn := ← nat j "nn", trace := [] } apps
     pure (Json.mkObj [
       ("trace", jList (r.sim.trace.reverse.map fun e => jPair (reqToJson e.1) (replyToJson e.2))),
